@@ -41,7 +41,7 @@ func (m *List) Draw(win vaxis.Window) {
 }
 
 func (m *List) Down() {
-	m.index = min(len(m.items)-1, m.index+1)
+	m.index = max(0, min(len(m.items)-1, m.index+1))
 }
 
 func (m *List) Up() {
@@ -53,12 +53,12 @@ func (m *List) Home() {
 }
 
 func (m *List) End() {
-	m.index = len(m.items) - 1
+	m.index = max(0, len(m.items)-1)
 }
 
 func (m *List) PageDown(win vaxis.Window) {
 	_, height := win.Size()
-	m.index = min(len(m.items)-1, m.index+height)
+	m.index = max(0, min(len(m.items)-1, m.index+height))
 }
 
 func (m *List) PageUp(win vaxis.Window) {
@@ -68,7 +68,7 @@ func (m *List) PageUp(win vaxis.Window) {
 
 func (m *List) SetItems(items []string) {
 	m.items = items
-	m.index = min(len(items) - 1, m.index)
+	m.index = max(0, min(len(items)-1, m.index))
 }
 
 // Returns the index of the currently selected item.
